@@ -22,6 +22,8 @@ def unhx(h):
 
 
 NONE, INT, REAL, CHAR, STRING = 0, 1, 2, 3, 4
+# characters that can neither continue nor start a number (no digits, sign, point, blank, quote, comment, comma, '=')
+GARBAGE = "abcdfghijklmnopqrstuvwxyzABCDFGHIJKLMNOPQRSTUVWXYZ_%$@!~/:;?^&*()[]{}|<>"
 SHORTS = "abcdefghijkmnopqrstuvwxyzABCDEFGHIJKLMNOPQRSTUVWXYZ0123456789"   # no 'l' (looks like 1); any alnum is legal
 STEMS = ["foo", "foobar", "fo", "f", "bar", "bar-x", "ba", "no-foo", "no-bar", "mul", "multi", "multiple", "a", "ab", "abc",
          "n", "x1", "x12", "out", "output", "out_dir", "in", "inc", "max", "max-n", "min", "v", "verbose", "q"]
@@ -300,7 +302,9 @@ class Gen:
             if bad:
                 self.stats["badvalue"] += 1
                 v = self.int_out(o)
-                c = ["abc", "1.5", "", "12x", "0x10", "1e3", "--5", "+", "-", "1 2", "7,"] + ([str(v)] * 12 if v is not None else [])
+                g = rng.choice(GARBAGE)
+                c = ["abc", "1.5", "", "12x", "0x10", "1e3", "--5", "+", "-", "1 2", "7,", str(self.int_in(o)) + g, str(self.int_in(o)) + g,
+                     g + str(self.int_in(o))] + ([str(v)] * 12 if v is not None else [])
                 if where == "cfg":
                     c = [x for x in c if x and " " not in x]
                 return rng.choice(c)
@@ -317,7 +321,9 @@ class Gen:
             if bad:
                 self.stats["badvalue"] += 1
                 v = self.real_out(o)
-                c = ["abc", "1.2.3", "", "1e", ".", "e5", "1,5", "--1", "+-1", "1.5x", ".e1"] + ([v] * 12 if v is not None else [])
+                g = rng.choice([x for x in GARBAGE if x not in "eE"])
+                c = ["abc", "1.2.3", "", "1e", ".", "e5", "1,5", "--1", "+-1", "1.5x", ".e1", self.real_in(o) + g, self.real_in(o) + g,
+                     g + self.real_in(o).lstrip("+-")] + ([v] * 12 if v is not None else [])
                 if where == "cfg":
                     c = [x for x in c if x]
                 return rng.choice(c)
@@ -683,7 +689,7 @@ class C14(Prop):
     harness = "h_getopts.c"
     theorems = ["EaselModel.Props.C14." + t for t in (
         "sources_are_setting_sequences_env", "sources_are_setting_sequences_cfg", "sources_are_setting_sequences_cmdline",
-        "spoof_is_cmdline_of_its_words", "cfg_line_name_arg", "cfg_line_flag", "cfg_line_missing_argument", "cfg_line_unknown_option",
+        "spoof_is_cmdline_of_its_words", "cfg_line_name_arg", "cfg_line_flag", "cfg_line_missing_argument", "cfg_line_unknown_option", "cfgfile_is_its_settings",
         "long_option_eq_form", "long_option_sep_form", "long_flag_form", "short_option_attached_form", "short_option_sep_form", "concatenated_short_flags",
         "successful_run_is_history", "successful_cfgfile_is_history", "successful_cmdline_is_history", "cmdline_success_is_history", "cfgfile_success_is_history", "environment_success_is_history", "last_setter_wins", "untouched_keeps_state", "fresh_object_all_default", "reuse_restores_defaults",
         "same_source_twice_is_usage_error", "set_after_toggle_by_same_source_is_usage_error",
@@ -772,6 +778,84 @@ class C14(Prop):
             {"name": "cfg-missing-arg-char", "ops": T + ["create", "cfg s=" + hx("-c\n"), "dump"], "sticky": n},
             {"name": "cfg-missing-arg-string", "ops": T + ["create", "cfg s=" + hx("--multi\n"), "dump"], "sticky": n},
         ]
+        # exhaustive sweep of one extra character before / after a valid number, and of every printable character as a
+        # char argument (type checks must reject exactly what the documented syntax excludes)
+        chars = [chr(c) for c in range(0x21, 0x7f) if chr(c) not in ","] + [" ", "\t"]
+        tbl = [opt_line("--int", 1, "5", None, "0<=n<=1000"), opt_line("--real", 2, "0.5", None, "-10<x<=1000"),
+               opt_line("--chr", 3, "m", None, "a<=c<=z"), opt_line("--str", 4, None)]
+        for nm, base in (("--int", "42"), ("--real", "4.25"), ("--real", "1e2"), ("--int", "-0")):
+            ops = tbl + ["create"]
+            for ch in chars:
+                # (re-use after each: once set, a second setting is rejected before its type is looked at)
+                ops += [W("prog", nm + "=" + base + ch), "reuse", W("prog", nm + "=" + ch + base), "reuse",
+                        W("prog", nm + "=" + base[:1] + ch + base[1:]), "reuse"]
+            cs.append({"name": "sweep" + nm + base, "ops": ops + ["dump"], "sticky": len(tbl) + 1})
+        # every prefix of every name of a table with shared prefixes, as flag / `=value` / separate value
+        nm_ty = [("--foo", 0), ("--foobar", 1), ("--fo", 4), ("--bar", 0), ("--baz-x", 2), ("--no-foo", 0), ("-f", 0), ("--f", 3)]
+        for order in (nm_ty, nm_ty[::-1]):
+            rows = [opt_line(nm, ty) for nm, ty in order]
+            ops = rows + ["create"]
+            for nm, ty in nm_ty:
+                if not nm.startswith("--"):
+                    continue
+                for k in range(2, len(nm) + 1):
+                    pre = nm[:k]
+                    ops += [W("prog", pre), "dump", "reuse", W("prog", pre + "=7"), "dump", "reuse", W("prog", pre, "7", "x"), "dump", "reuse"]
+            cs.append({"name": "abbrev-sweep", "ops": ops, "sticky": len(rows) + 1})
+        # clusters of short options
+        rows = [opt_line("-a", 0), opt_line("-b", 0), opt_line("-c", 0, "on"), opt_line("-n", 1, "0"), opt_line("-s", 4, None), opt_line("-x", 2, None),
+                opt_line("--a", 0), opt_line("--long", 0)]
+        ops = rows + ["create"]
+        for w in ["-ab", "-ba", "-abc", "-cab", "-aa", "-abn5", "-abn", "-anb", "-an5b", "-as", "-asfoo", "-sfoo", "-sa", "-s-a", "-a-", "-a-b", "-ab-", "-a--long",
+                  "-n-5", "-n", "-x.5", "-ax1e2", "-xa", "-abz", "-z", "-ab=", "-s=v", "-n=5", "-", "--", "-a=", "-abs"]:
+            ops += [W("prog", w, "7", "-b", "y"), "dump", "reuse"]
+        cs.append({"name": "cluster-sweep", "ops": ops, "sticky": len(rows) + 1})
+        # a toggle pair set by every ordered pair of sources
+        rows = [opt_line("-b", 0, None, "C14SWB", None, "-b,--no-b"), opt_line("--no-b", 0, "TRUE", "C14SWN", None, "-b,--no-b"),
+                opt_line("--s1", 4, None, "C14SW1", None, "--s2"), opt_line("--s2", 4, "dflt", "C14SW2", None, "--s1")]
+        def setter(kind, nm, arg):
+            if kind == "cmd":
+                return W("prog", nm) if arg is None else W("prog", nm, arg)
+            if kind == "cfg":
+                return "cfg s=" + hx(nm + ("" if arg is None else " " + arg) + "\n")
+            env = {"-b": "C14SWB", "--no-b": "C14SWN", "--s1": "C14SW1", "--s2": "C14SW2"}[nm]
+            return "env v=%s:%s" % (hx(env), hx("1" if arg is None else arg))
+        for grp, arg in ((("-b", "--no-b"), None), (("--s1", "--s2"), "val")):
+            ops = rows + ["create"]
+            for k1 in ("cmd", "env", "cfg"):
+                for k2 in ("cmd", "env", "cfg"):
+                    for n1 in grp:
+                        for n2 in grp:
+                            ops += [setter(k1, n1, arg), setter(k2, n2, arg), "verify", "dump", "reuse"]
+            cs.append({"name": "toggle-order-sweep" + grp[0], "ops": ops, "sticky": len(rows) + 1})
+        # requirements and incompatibilities over every subset of options
+        rows = [opt_line("-a", 0, None, None, None, None, "-b", None), opt_line("-b", 0), opt_line("-c", 0, None, None, None, None, None, "-a,-c"),
+                opt_line("-d", 1, "3", None, None, None, "-a,-c", "-b")]
+        ops = rows + ["create"]
+        for mask in range(16):
+            ws = ["prog"] + [w for k, w in enumerate(["-a", "-b", "-c", "-d5"]) if mask >> k & 1]
+            ops += [W(*ws), "verify", "dump", "reuse"]
+        cs.append({"name": "verify-sweep", "ops": ops, "sticky": len(rows) + 1})
+        # every documented range form at and around its bounds
+        forms = [("%s<=%s<=%s", 1, 1), ("%s<%s<=%s", 0, 1), ("%s<=%s<%s", 1, 0), ("%s<%s<%s", 0, 0)]
+        for ty, v, lo, hi, vals in ((1, "n", "-3", "7", ["-5", "-4", "-3", "-2", "0", "6", "7", "8", "9", "+7", "07", " 7", "7 "]),
+                                    (2, "x", "-0.5", "2.5", ["-0.51", "-0.5", "-.5", "-5e-1", "-0.49", "0", "2.49", "2.5", "25e-1", "2.50", "2.51", "1e1", "-1"]),
+                                    (3, "c", "b", "y", ["a", "b", "c", "m", "x", "y", "z", "B", "`", "{"])):
+            rows, names = [], []
+            for k, (f, ge, le) in enumerate(forms):
+                rows.append(opt_line("--two%d" % k, ty, None, None, f % (lo, v, hi))); names.append("--two%d" % k)
+            for k, r in enumerate(["%s>=%s" % (v, lo), "%s>%s" % (v, lo), "%s<=%s" % (v, hi), "%s<%s" % (v, hi)]):
+                rows.append(opt_line("--one%d" % k, ty, None, None, r)); names.append("--one%d" % k)
+            ops = rows + ["create"]
+            for x in vals:
+                ops += [W("prog", *[nm2 + "=" + x for nm2 in names[:4]]), "dump", "reuse", W("prog", *[nm2 + "=" + x for nm2 in names[4:]]), "dump", "reuse"]
+                for nm2 in names:
+                    ops += [W("prog", nm2, x), "reuse"]
+            cs.append({"name": "range-bounds-%s" % v, "ops": ops + ["dump"], "sticky": len(rows) + 1})
+        ops = tbl + ["create"]
+        for ch in chars:
+            ops += [W("prog", "--chr=" + ch), "reuse"]
+        cs.append({"name": "sweep-chr", "ops": ops + ["dump"], "sticky": len(tbl) + 1})
         return cs
 
     # ------------------------------------------------------------------ generated cases
